@@ -24,6 +24,21 @@ FIXED = [
  ("fix: multi-column index values collided", "C05", "TestFixedC05OptionalTuple", "a multi-column index hashed (unset, x) and (x, unset) of two optional columns to the same value"),
  ("fix: two conditions on different keys", "C08", "TestFixedC08IndexedConditions", "two includes conditions on different keys of one map column, matching a client index over both keys, were looked up as one (only the last key) and missed rows"),
  ("fix: 'includes' of an empty value", "C08", "TestFixedC08IndexedConditions", "includes [] on an optional column with a client index returned only the rows where it is unset"),
+ ("fix: notifications of a plain 'monitor'", "C01", "TestFixedC01PlainMonitor", "notifications for a 'monitor'-method monitor were sent as update2: the client reported cache inconsistencies and treated modifications as deletions"),
+ ("fix: notifications racing the set-up of an additional monitor", "C01", "TestFixedC01AdditionalMonitorWindow", "a notification handled between the reply and the application of an additional monitor was applied before (and overwritten by) its initial contents, or disconnected the client"),
+ ("fix: a failed Monitor call left the model lock", "C18", "TestFixedC18MonitorErrorThenReconnect", "Monitor of a table unknown to the model returned with modelMutex read-locked; the next Connect never returned"),
+ ("fix: get_schema for an unknown database", "C18", "TestFixedC18MonitorErrorThenReconnect", "server.GetSchema returned with modelsMutex read-locked for an unknown database (same shape as the client-side leak)"),
+ ("fix: monitor notifications crashed the server on requests without select", "C07", "TestFixedC07MonitorRequestDefaults", "monitor requests without select/columns crashed the server at the next commit; omitted columns meant no columns; rows changed only in unmonitored columns and empty tables were reported"),
+ ("fix: monitor replies carried the initial contents", "C07", "TestFixedC07MonitorRequestDefaults", "select.initial=false was ignored"),
+ ("fix: a null monitor request", "C07", "TestFixedC07MonitorRequestDefaults", "a null per-table monitor request panicked the monitor handlers"),
+ ("fix: Monitor called while the client reconnects deadlocked", "C18", "TestFixedC18MonitorDuringReconnect", "lock order inversion between Monitor() (monitorsMutex then rpcMutex) and the reconnect path (rpcMutex then monitorsMutex)"),
+ ("fix: after a reconnect only the tables of the last restarted monitor", "C16", "TestFixedC16TwoMonitorsReconnect", "with several monitors every restarted monitor purged the whole cache: only the last one's tables survived a reconnect"),
+ ("fix: a monitor set up while a transaction was being committed", "C17", "TestC17MonitorWindow", "monitor handlers did not take txnMutex: a monitor registered between notification and commit of a transaction never saw it"),
+ ("fix: NewMonitor and MonitorAll read the database model", "C18", "TestFixedC18CloseConnectRace race=1", "data race on db.model between NewMonitor/MonitorAll and the disconnect handler"),
+ ("fix: connecting right after Close or Disconnect", "C18", "TestFixedC18CloseConnectRace race=1", "the disconnect handler cleared cache/model/monitors after releasing rpcMutex: a quick Connect set the new connection up on the state being torn down"),
+ ("fix: the disconnect handler could wait", "C18", "TestFixedC18CloseConnectRace race=1", "WaitGroup.Wait of the disconnect handler raced with the Add calls of connect()"),
+ ("fix: Create and the Where* calls read", "C18", "TestFixedC18CloseConnectRace race=1", "data race on db.api between Where/WhereAny/WhereAll/WhereCache/Create and connection set-up"),
+ ("fix: modelgen failed or produced uncompilable code", "C20", "TestFixedC20EnumNames", "integer/real/boolean enums made the generator fail or emit aliases to OVSDB type names; enum strings were used verbatim in identifiers and unescaped in literals"),
  ("fix: commit, comment and assert", "C19", "TestFixedC19DegenerateOps", "commit/comment/assert operations carrying a table but not their member dereferenced nil"),
 ]
 log = subprocess.run(["git","-C","/repo","log","--format=%h %s"],capture_output=True,text=True).stdout.splitlines()
@@ -41,6 +56,7 @@ for prefix, prop, test, text in FIXED + EXTRA if 'EXTRA' in globals() else FIXED
     h=sha(prefix)
     if not h:
         print("warning: no commit for", prefix, file=sys.stderr); continue
-    out.append(f"fixed: property={prop} commit={h} test={test} {text}")
+    tst, _, extra = test.partition(" ")
+    out.append(f"fixed: property={prop} commit={h} test={tst}{' ' + extra if extra else ''} {text}")
 open(path,"w").write("\n".join(out)+"\n")
 print("fixed entries:", sum(1 for l in out if l.startswith("fixed:")))
